@@ -2,12 +2,34 @@
  * vh_bracket: syscall bracket for C20.  A silent, arena-backed port (no libc allocation, no stdio);
  * the core is driven between two marker system calls - write(999,"BEGIN") / write(999,"END") - and
  * strace must show nothing in between.  Links against libcore-<cfg>.so.
+ *
+ * With -DVH_BARE the same program is a port without any C runtime (own _start, raw system calls, no
+ * loader, nobody walks .init_array): linked statically with the relocatable core it must report the
+ * same SENT line as the hosted run - a core that relies on start-up services does not.
  */
 #include <stdarg.h>
 #include <stddef.h>
 #include <stdint.h>
+#ifndef VH_BARE
 #include <string.h>
 #include <unistd.h>
+#else
+static long sys3(long n, long a, long b, long c) {
+    long r;
+    __asm__ volatile("syscall" : "=a"(r) : "a"(n), "D"(a), "S"(b), "d"(c) : "rcx", "r11", "memory");
+    return r;
+}
+static long bare_write(int fd, const void *p, size_t n) { long r = sys3(1, fd, (long)p, (long)n); return r < 0 ? -1 : r; }
+#define write bare_write
+int main(void);
+void bare_entry(void) { int rc = main(); sys3(60, rc, 0, 0); for (;;) { } }
+__asm__(".globl _start\n_start:\n xor %ebp,%ebp\n and $-16,%rsp\n call bare_entry\n hlt\n");
+/* the memory primitives a C compiler may emit by itself */
+void *memcpy(void *d, const void *s, size_t n) { uint8_t *a = d; const uint8_t *b = s; while (n--) *a++ = *b++; return d; }
+void *memmove(void *d, const void *s, size_t n) { uint8_t *a = d; const uint8_t *b = s; if (a < b) while (n--) *a++ = *b++; else while (n--) a[n] = b[n]; return d; }
+void *memset(void *p, int v, size_t n) { uint8_t *b = p; while (n--) *b++ = (uint8_t)v; return p; }
+int memcmp(const void *x, const void *y, size_t n) { const uint8_t *a = x, *b = y; for (; n--; a++, b++) if (*a != *b) return *a - *b; return 0; }
+#endif
 
 #include "lltdPort.h"
 #include "lltdBlock.h"
